@@ -56,7 +56,13 @@ OPT_SECTION8 = ("# Options:\n"
                 "#   -s, --select=<expr>  What to select [default: items[0]]\n"
                 "#   --range=<r>          Range [default: [1, 2]]\n"
                 "#   -q                   Quiet.\n")
-TABLES = {"T8": (OPTS8, OPT_SECTION8), "T7": (OPTS7, OPT_SECTION7), "T6": (OPTS6, OPT_SECTION6), True: (OPTS, OPT_SECTION), "T2": (OPTS2, OPT_SECTION2), "T3": (OPTS3, OPT_SECTION3), "T4": (OPTS4, OPT_SECTION4), "T5": (OPTS5, OPT_SECTION5)}
+# option names that differ in CASE only: different options, different keys
+OPTS9 = [("v", None, False, None), ("V", None, False, None), ("q", None, False, None)]
+OPT_SECTION9 = ("# Options:\n"
+                "#   -v  Verbose.\n"
+                "#   -V  Version.\n"
+                "#   -q  Quiet.\n")
+TABLES = {"T9": (OPTS9, OPT_SECTION9), "T8": (OPTS8, OPT_SECTION8), "T7": (OPTS7, OPT_SECTION7), "T6": (OPTS6, OPT_SECTION6), True: (OPTS, OPT_SECTION), "T2": (OPTS2, OPT_SECTION2), "T3": (OPTS3, OPT_SECTION3), "T4": (OPTS4, OPT_SECTION4), "T5": (OPTS5, OPT_SECTION5)}
 
 
 def opts_of(wo):
@@ -379,12 +385,26 @@ def family_usages():
     av22 = [list(t) for n in range(0, 4) for t in itertools.product(t22, repeat=n) if len(set(t)) == len(t) and sum(1 for w in t if w.startswith('-')) <= 2]
     for l in ([sq(opt(f), x)], [sq(('anyopts',), opt(x))], [sq(opt(f), opt(oo), ('rep', x))], [sq(a, opt(f), opt(x))]):
         out.append((l, True, av22))
+    # F23: an EMPTY word on the command line ('' is an argument like any other: a positional value, an option value)
+    av23 = [list(t) for n in range(0, 4) for t in itertools.product(['', 'v', 'a', '--out', '--out=', '-q'], repeat=n) if t.count('--out') + t.count('--out=') <= 1]
+    for l in ([sq(x)], [sq(x, y)], [sq(a, opt(x))], [sq(('rep', x))], [sq(opt(oo), x)], [sq(('anyopts',), opt(x))]):
+        out.append((l, True if any(n[0] in ('opt', 'anyopts') for n in walk(l[0])) else False, av23))
+    # F24: short options that differ in case only
+    t24 = ['-v', '-V', '-q', '-vV', '-Vq', 'w']
+    av24 = [list(t) for n in range(0, 4) for t in itertools.product(t24, repeat=n) if len(set(t)) == len(t)]
+    lv_, uv_ = o('v', '-v'), o('V', '-V')
+    for l in ([sq(('anyopts',), opt(x))], [sq(opt(lv_), opt(uv_), opt(x))], [sq(opt(uv_), x)], [sq(a, ('anyopts',))]):
+        out.append((l, "T9", av24))
     # F5: upper-case positionals, `<x> ...` with a blank before the dots
     F, G = ('pos', 'FILE'), ('pos', 'MY-ARG')
+    NM, FN = ('pos', 'NAME'), ('pos', 'FILENAME')
     av5 = [list(t) for n in range(0, 5) for t in itertools.product(['a', 'v', 'w'], repeat=n)]
     for l in ([('seq', [F])], [('seq', [a, F, opt(G)])], [('seq', [('rep', F)])], [('seq', [('rep', x, 'spaced')])], [('seq', [a, ('rep', ('optional', F))])],
-              [('seq', [F, ('rep', y, 'spaced')])], [('seq', [opt(('rep', G))])], [('seq', [('group', ('alt', [a, F]))])]):
+              [('seq', [F, ('rep', y, 'spaced')])], [('seq', [opt(('rep', G))])], [('seq', [('group', ('alt', [a, F]))])],
+              # one upper-case name is the tail of another one, which is repeated
+              [('seq', [NM, ('rep', FN)])], [('seq', [('rep', FN), NM])], [('seq', [a, NM, opt(('rep', FN))])]):
         out.append((l, False, av5))
+    out.append(([('seq', [a, NM]), ('seq', [b, ('rep', FN)])], False, av5 + [['b'] + w for w in av5[:40]]))
     # F6: names with dashes: commands, positionals, options (keys with underscores)
     mc, ma = ('cmd', 'my-cmd'), ('pos', 'my-arg')
     t6 = ['my-cmd', 'v', '--dry-run', '-n', '--no-act', '--out-dir=w', '-d', 'w', '-dw', 'my_cmd']
